@@ -3,8 +3,8 @@
 package tun
 
 import (
-	"time"
 	"testing"
+	"time"
 
 	"pgregory.net/rapid"
 	"verif/harness/common"
@@ -46,6 +46,6 @@ func TestC03B(t *testing.T) {
 		rec.Sample("bubble", map[string]any{"plan": p, "trace_head": Dump(br.Events, 0)[:min(len(br.Events), 25)]})
 		return nil
 	}
-	common.Drive(t, rec, func(rt *rapid.T) *Plan { return genPlanC03B(rt) }, run)
+	common.Drive(t, rec, func(rt *rapid.T) *Plan { return withEdgeChannels(rt, genPlanC03B(rt)) }, run)
 	completed = true
 }
